@@ -63,8 +63,11 @@ def run(pid, tier, w, W, seed, out, limit):
       canaries[name] = bool(fn())
 
   determinism_ok = True
+  only = os.environ.get('VERIF_ITEM_FILTER')    # debugging aid: process only items whose repr contains this text
   for i, item in enumerate(prop.items(tier, seed)):
     if i % W != w:
+      continue
+    if only and only not in repr(item):
       continue
     if limit and items >= limit:
       break
